@@ -74,6 +74,108 @@ MISS_CLASSES = ["parenKey", "nonStrKey", "bytesMapping", "hugeWidthPrec", "fmtAu
 FP_CLASSES = ["cRangeStr", "dotNoDigits", "emptyKey", "parenKey", "pctOnlyMapping", "bytesMapping"]
 TYPE_CLASSES = []  # the crash class (Any[error]) was repaired in /repo cf8a3b3; a wrong type is always new
 
+# ---------------------------------------------------------------- translate: cache scan of the live source
+CACHE_DECORATORS = ("lru_cache", "cache", "cached_property", "memoize", "memoized", "cached")
+_MUTABLE_CALLS = ("dict", "list", "set", "defaultdict", "OrderedDict", "Counter", "deque", "WeakKeyDictionary",
+                  "WeakValueDictionary")
+
+
+def _dotted(node):
+    import ast
+    if isinstance(node, ast.Call):
+        node = node.func
+    parts = []
+    while isinstance(node, ast.Attribute):
+        parts.append(node.attr)
+        node = node.value
+    if isinstance(node, ast.Name):
+        parts.append(node.id)
+    return ".".join(reversed(parts))
+
+
+def scan_caches(repo):
+    """What could carry state from one `%`/`.format` check to the next, read off the live source:
+    (caches)   functions/methods of format_strings.py (and `_str_format_impl`) decorated with a caching decorator;
+    (mutables) module-level names of format_strings.py bound to a mutable container;
+    (stores)   `self.<attr> = …` / `object.__setattr__(self, …)` / `self.__dict__[…]` inside methods of its classes."""
+    import ast
+    caches, mutables, stores = [], [], []
+    tree = ast.parse(open(os.path.join(repo, "pyanalyze/format_strings.py")).read())
+
+    def walk_defs(node, prefix):
+        for ch in ast.iter_child_nodes(node):
+            if isinstance(ch, (ast.FunctionDef, ast.AsyncFunctionDef, ast.ClassDef)):
+                q = prefix + ch.name
+                for d in ch.decorator_list:
+                    name = _dotted(d)
+                    if name.split(".")[-1] in CACHE_DECORATORS:
+                        caches.append("%s@%s" % (name.split(".")[-1], q))
+                if isinstance(ch, ast.ClassDef):
+                    for fn in ast.walk(ch):
+                        if isinstance(fn, (ast.FunctionDef, ast.AsyncFunctionDef)):
+                            for st in ast.walk(fn):
+                                tgts = []
+                                if isinstance(st, ast.Assign):
+                                    tgts = st.targets
+                                elif isinstance(st, (ast.AugAssign, ast.AnnAssign)):
+                                    tgts = [st.target]
+                                for t in tgts:
+                                    base = t.value if isinstance(t, (ast.Attribute, ast.Subscript)) else None
+                                    while isinstance(base, (ast.Attribute, ast.Subscript)):
+                                        base = base.value
+                                    if isinstance(base, ast.Name) and base.id in ("self", "cls"):
+                                        stores.append("%s.%s:%s" % (q, fn.name, ast.unparse(t)))
+                                if isinstance(st, ast.Call) and _dotted(st) in ("object.__setattr__", "setattr"):
+                                    stores.append("%s.%s:setattr" % (q, fn.name))
+                walk_defs(ch, q + ".")
+
+    walk_defs(tree, "")
+    for st in tree.body:
+        tgts, val = [], None
+        if isinstance(st, ast.Assign):
+            tgts, val = st.targets, st.value
+        elif isinstance(st, ast.AnnAssign) and st.value is not None:
+            tgts, val = [st.target], st.value
+        if val is None:
+            continue
+        mutable = isinstance(val, (ast.Dict, ast.List, ast.Set, ast.DictComp, ast.ListComp, ast.SetComp)) or (
+            isinstance(val, ast.Call) and _dotted(val).split(".")[-1] in _MUTABLE_CALLS)
+        if mutable:
+            for t in tgts:
+                if isinstance(t, ast.Name):
+                    mutables.append(t.id)
+    impl = ast.parse(open(os.path.join(repo, "pyanalyze/implementation.py")).read())
+    for ch in impl.body:
+        if isinstance(ch, ast.FunctionDef) and ch.name == "_str_format_impl":
+            for d in ch.decorator_list:
+                if _dotted(d).split(".")[-1] in CACHE_DECORATORS:
+                    caches.append("%s@implementation._str_format_impl" % _dotted(d).split(".")[-1])
+    return sorted(caches), sorted(mutables), sorted(set(stores))
+
+
+def _lean_strs(xs):
+    return "[" + ", ".join(json.dumps(x) for x in xs) + "]"
+
+
+def translate(ctx):
+    repo = os.environ.get("VERIF_REPO", "/repo")
+    caches, mutables, stores = scan_caches(repo)
+    ctx.extra["cache_scan"] = {"caches": caches, "module_mutables": mutables, "self_stores": stores}
+    text = (
+        "/-! Regenerated on every run by `translate` in harness/props/c17.py from the live\n"
+        "`pyanalyze/format_strings.py` (+ the decorators of `implementation._str_format_impl`): everything\n"
+        "that could carry state from one `%%` / `str.format` check to the next. DO NOT EDIT. -/\n"
+        "namespace Pya.C17\n\n"
+        "/-- functions / methods under a caching decorator (`decorator@qualified name`) -/\n"
+        "def liveCaches : List String := %s\n\n"
+        "/-- module-level names of format_strings.py bound to a mutable container -/\n"
+        "def liveModuleMutables : List String := %s\n\n"
+        "/-- attribute stores on `self`/`cls` inside methods of its classes (`Class.method:target`) -/\n"
+        "def liveSelfStores : List String := %s\n\n"
+        "end Pya.C17\n" % (_lean_strs(caches), _lean_strs(mutables), _lean_strs(stores)))
+    lean.write_if_changed(os.path.join(lean.LEAN, "PyaModel", "Generated", "FormatCaches.lean"), text)
+
+
 # ---------------------------------------------------------------- argument universe
 def elem_src(tok):
     if tok[0] == "i":
@@ -379,7 +481,7 @@ def e2e_lines(exprs):
     B = 1000
     for b0 in range(0, len(exprs), B):
         batch = exprs[b0:b0 + B]
-        src = "def f():\n" + "".join("    reveal_type(%s)\n" % e for e in batch)
+        src = "def f(c: bool, e: bool):\n" + "".join("    reveal_type(%s)\n" % e for e in batch)
         fails, _, _ = pya.check_source(src)
         by = {}
         for f in fails:
@@ -699,6 +801,352 @@ def eval_regex(ctx, strings, with_model=True):
     ctx.count(len(strings), regex=len(strings))
 
 
+# ---------------------------------------------------------------- programs: several occurrences, one process
+# An occurrence is (isb, template, members): members = tuple of args; one member = a plain literal operand, several =
+# a union-typed operand (`A if c else B if e else C`). A program is a list of occurrences checked in ONE module, through
+# the visitor route (`template % operand` expressions in checked source).
+PROG_TEMPLATES = ["%(n)s", "%(n)05d:%(s)-4s|", "%(a)s %(b)d", "%(a)s%(a)r", "%(n)x", "%(n)c", "%(n)s %%", "%d %s", "%s",
+                  "%*d", "%c|%5.2f", "%%", "abc", "%d%%", "%(n)s %s", "%(a)b"]
+PROG_EXTRA_KEYS = ["size", "pad", "n", "s", "a", "b", "zz"]
+
+
+def occ_expr(occ):
+    isb, t, members = occ
+    srcs = [arg_src(a) for a in members]
+    if len(srcs) == 1:
+        operand = srcs[0]
+    elif len(srcs) == 2:
+        operand = "(%s if c else %s)" % tuple(srcs)
+    else:
+        operand = "(%s if c else %s if e else %s)" % tuple(srcs[:3])
+    return "%s %% %s" % (tmpl_src(t, isb), operand)
+
+
+def occ_line(occ):
+    isb, t, members = occ
+    return "P %s %s | %s" % ("b" if isb else "s", cps(t), " / ".join(arg_tok(a) for a in members))
+
+
+def occ_json(occ):
+    return [occ[0], occ[1], [list(a) if a[0] == "S" else [a[0], [list(x) if isinstance(x, tuple) else x for x in a[1]]]
+                             for a in occ[2]]]
+
+
+def occ_from_json(o):
+    def arg(a):
+        if a[0] == "S":
+            return ("S", a[1])
+        if a[0] == "T":
+            return ("T", tuple(a[1]))
+        return ("D", tuple((tuple(k), e) for k, e in a[1]))
+    return (bool(o[0]), o[1], tuple(arg(a) for a in o[2]))
+
+
+def _directives(tmpl):
+    return list(_DIR.finditer(tmpl.replace("%%", "\0\0")))
+
+
+def prog_arg(rng, tmpl, isb, variant=None):
+    """One operand for the template: exact / superset / missing keys, right / short / long tuples, bad values."""
+    ds = _directives(tmpl)
+    keys = list(dict.fromkeys(m.group(1) for m in ds if m.group(1) is not None))
+    variant = variant or rng.choice(["exact", "exact", "superset", "superset", "missing", "bad", "other"])
+    if keys:
+        kv = []
+        for k in keys:
+            conv = [m.group(4) for m in ds if m.group(1) == k][0]
+            kv.append(((("y" if isb else "s"), k), good_elem(rng, conv, isb) if variant != "bad" or rng.random() < 0.5
+                       else rng.choice(ELEMS)))
+        if variant == "superset":
+            for x in rng.sample(PROG_EXTRA_KEYS, rng.randint(1, 2)):
+                if x not in keys:
+                    kv.append((("s", x), rng.choice(["i65", "s1", "f", "N"])))
+        elif variant == "missing" and kv:
+            kv.pop(rng.randrange(len(kv)))
+        elif variant == "other":
+            return rng.choice([("S", "i65"), ("T", ("i65",)), ("D", ()), ("S", "L")])
+        rng.shuffle(kv)
+        return ("D", tuple(kv))
+    need = []
+    for m in ds:
+        need += ["*"] * ((m.group(2) == "*") + (m.group(3) == "*")) + [m.group(4)]
+    elems = [rng.choice(["i65", "i0", "bT"]) if c == "*" else (good_elem(rng, c, isb) if variant != "bad" else rng.choice(ELEMS))
+             for c in need]
+    if variant == "missing" and elems:
+        elems.pop()
+    elif variant == "superset":
+        elems.append(rng.choice(ELEMS))
+    elif variant == "other":
+        return rng.choice([("D", ((("s", "n"), "i65"),)), ("D", ()), ("S", "s2"), ("T", ())])
+    if len(elems) == 1 and elems[0] not in ("T", "D") and rng.random() < 0.5:
+        return ("S", elems[0])
+    return ("T", tuple(elems))
+
+
+def _distinct_members(members):
+    vals = []
+    for a in members:
+        v = eval(arg_src(a), {})
+        if any(type(v) is type(w) and v == w for w in vals):
+            return False
+        vals.append(v)
+    return True
+
+
+def rand_program(rng):
+    pool = [(False, t) for t in rng.sample(PROG_TEMPLATES, rng.randint(1, 3))]
+    if rng.random() < 0.3:
+        isb = rng.random() < 0.4
+        pool.append((isb, rand_pct_template(rng, isb)))
+    if rng.random() < 0.2:
+        pool.append((True, rng.choice(["%(n)s", "%d %s", "%b", "%(a)s %(b)d"])))
+    prog = []
+    for _ in range(rng.randint(2, 7)):
+        isb, t = rng.choice(pool)
+        n = 1 if rng.random() < 0.75 else rng.choice([2, 2, 3])
+        members = tuple(prog_arg(rng, t, isb) for _ in range(n))
+        if n > 1 and not _distinct_members(members):
+            members = members[:1]
+        prog.append((isb, t, members))
+    return prog
+
+
+def _subsets_dict(keys, value_of):
+    out = []
+    for r in range(len(keys) + 1):
+        for ks in itertools.combinations(keys, r):
+            out.append(("D", tuple((("s", k), value_of(k)) for k in ks)))
+    return out
+
+
+def exhaustive_programs(big):
+    """The same template with every ordered pair / triple of argument dicts over a small key set, and
+    tuples of every length in every order."""
+    progs = []
+    d1 = _subsets_dict(["a", "b", "c"], lambda k: "i65")
+    for t in ("%(a)s", "%(a)d %(b)s"):
+        for x in d1:
+            for y in d1:
+                progs.append([(False, t, (x,)), (False, t, (y,))])
+    tri = d1 if big else d1[:5]
+    for t in (("%(a)s", "%(a)d %(b)s") if big else ("%(a)s",)):
+        for x in tri:
+            for y in tri:
+                for z in tri:
+                    progs.append([(False, t, (x,)), (False, t, (y,)), (False, t, (z,))])
+    tups = [("T", ("i65",) * n) for n in range(4)] + [("S", "i65")]
+    for x in tups:
+        for y in tups:
+            progs.append([(False, "%d %s", (x,)), (False, "%d %s", (y,))])
+            if x != y:
+                progs.append([(False, "%d %s", (x, y))])
+    for x in d1:
+        for y in d1:
+            if x != y:
+                progs.append([(False, "%(a)s", (x, y)), (False, "%(a)s", (y,))])
+    return progs
+
+
+def e2e_programs(progs):
+    """Check programs through the visitor, many programs per module (each program its own function).
+    Returns one (msgs, crash, type, other) per occurrence, flattened in order."""
+    res = []
+    batch, nlines = [], 0
+    batches = []
+    for pr in progs:
+        if nlines + len(pr) + 1 > 400 and batch:
+            batches.append(batch)
+            batch, nlines = [], 0
+        batch.append(pr)
+        nlines += len(pr) + 1
+    if batch:
+        batches.append(batch)
+    for batch in batches:
+        lines, where = [], []
+        for j, pr in enumerate(batch):
+            lines.append("def p%d(c: bool, e: bool):" % j)
+            for occ in pr:
+                lines.append("    reveal_type(%s)" % occ_expr(occ))
+                where.append(len(lines))
+        fails, _, _ = pya.check_source("\n".join(lines) + "\n")
+        by = {}
+        for f in fails:
+            by.setdefault(f["lineno"], []).append(f)
+        for ln in where:
+            res.append(_collect(by.get(ln, [])))
+    return res
+
+
+def _collect(fs):
+    msgs, crash, ty, other = [], False, None, []
+    for f in fs:
+        c = f["code"]
+        if c in ("bad_format_string", "incompatible_call"):
+            msgs.append(f["message"])
+        elif c == "internal_error":
+            crash = True
+        elif c == "reveal_type":
+            m = re.match(r"Revealed type is '(.*)'", f["message"])
+            ty = m.group(1) if m else f["message"]
+        else:
+            other.append(c)
+    return (msgs, crash, ty, other)
+
+
+_FRESH_WORKER = (
+    "import sys, json; sys.path.insert(0, %r); from harness.props import c17; "
+    "progs = [[c17.occ_from_json(o) for o in pr] for pr in json.load(sys.stdin)]; "
+    "print('RESULT' + json.dumps([[list(r[:3]) for r in c17.e2e_programs([pr])] for pr in progs]))"
+)
+
+
+def fresh_verdicts(jobs, par=8):
+    """Each job (a list of programs) is checked in its own fresh interpreter. Returns per job, per program,
+    the per-occurrence (msgs, crash, type)."""
+    import subprocess, sys
+    out = [None] * len(jobs)
+    running = []
+    todo = list(enumerate(jobs))
+
+    def finish(i, p):
+        so, se = p.communicate()
+        for l in so.split("\n"):
+            if l.startswith("RESULT"):
+                out[i] = json.loads(l[6:])
+                return
+        out[i] = "fresh worker failed: " + (se or so)[-300:]
+
+    while todo or running:
+        while todo and len(running) < par:
+            i, job = todo.pop(0)
+            p = subprocess.Popen([sys.executable, "-c", _FRESH_WORKER % lean.HERE], stdin=subprocess.PIPE,
+                                 stdout=subprocess.PIPE, stderr=subprocess.PIPE, text=True, cwd=lean.HERE)
+            p.stdin.write(json.dumps([[occ_json(o) for o in pr] for pr in job]))
+            p.stdin.close()
+            p.stdin = None
+            running.append((i, p))
+        i, p = running.pop(0)
+        finish(i, p)
+    return out
+
+
+_HISTORY = {}  # (isb, template) -> occurrences already checked through the visitor in this process
+
+
+def _verdict(r):
+    msgs, crash, ty = r[0], r[1], r[2]
+    return ([kind_of(x, _PCT_KINDS) for x in msgs][:1], bool(crash), ty)
+
+
+def eval_prog(ctx, progs, with_model=True, n_fresh_occ=0, n_fresh_prog=0):
+    flat = [occ for pr in progs for occ in pr]
+    if not flat:
+        return
+    model = lean.run_driver("C17", [occ_line(o) for o in flat]) if with_model else None
+    runA = e2e_programs(progs)
+    runB = e2e_programs(progs)          # the whole stream once more in the same process
+    # fresh-process baselines: single occurrences alone, and whole programs
+    rng = ctx.rng
+    idx_of = []
+    for pi, pr in enumerate(progs):
+        for oi in range(len(pr)):
+            idx_of.append((pi, oi))
+    occ_sample = sorted(rng.sample(range(len(flat)), min(n_fresh_occ, len(flat))))
+    prog_sample = sorted(rng.sample(range(len(progs)), min(n_fresh_prog, len(progs))))
+    fresh = fresh_verdicts([[[flat[i]]] for i in occ_sample] + [[progs[i]] for i in prog_sample]) if (occ_sample or prog_sample) else []
+    fresh_occ = {}
+    for k, i in enumerate(occ_sample):
+        r = fresh[k]
+        fresh_occ[i] = r if isinstance(r, str) else r[0][0]
+    start = {}
+    pos = 0
+    for pi, pr in enumerate(progs):
+        start[pi] = pos
+        pos += len(pr)
+    for k, pi in enumerate(prog_sample):
+        r = fresh[len(occ_sample) + k]
+        for oi in range(len(progs[pi])):
+            fresh_occ.setdefault(start[pi] + oi, r if isinstance(r, str) else r[0][oi])
+    for i, occ in enumerate(flat):
+        isb, t, members = occ
+        pi, oi = idx_of[i]
+        expr = occ_expr(occ)
+        hist = _HISTORY.setdefault((isb, t), [])
+        case = {"k": "prog", "occs": [occ_json(o) for o in hist] + [occ_json(occ)], "expr": expr,
+                "program": [occ_expr(o) for o in progs[pi]], "index_in_program": oi}
+        hist.append(occ)
+        reals = [real_eval("%s %% %s" % (tmpl_src(t, isb), arg_src(a))) for a in members]
+        ctx.count(1, prog_occ=1, **{"prog_union" if len(members) > 1 else "prog_plain": 1,
+                                    "prog_reuse" if len(hist) > 1 else "prog_first_use": 1})
+        ctx.nontriv("G%d:%s" % (len(hist), expr))
+        vA, vB = _verdict(runA[i]), _verdict(runB[i])
+        conforms = True
+        dset = set()
+        if model is not None:
+            m = parse_model(model[i])
+            if "errs" not in m:
+                ctx.disagree("prog", case, "driver: " + model[i], "bad-op")
+                continue
+            merrs = [] if m["errs"] == "-" else m["errs"].split(",")
+            dset = set() if m["D"] == "-" else set(m["D"].split(","))
+            ctx.corr("prog")
+            if vA != (merrs[:1], False, m["ty"]):
+                conforms = False
+                ctx.disagree("prog", case, {"first": vA[0], "crash": vA[1], "type": vA[2]},
+                             {"first": merrs[:1], "crash": False, "type": m["ty"]})
+            for a_real, a_cpy in zip(reals, m["cpy"].split(";")):
+                ctx.corr("spec")
+                if (a_real.split(":")[0] == "raises") != (a_cpy == "raises") or (a_cpy != "raises" and a_cpy != a_real):
+                    ctx.disagree("spec", case, a_real, a_cpy)
+        ctx.corr("prog-repeat")
+        if vB != vA:
+            conforms = False
+            ctx.disagree("prog-repeat", case, {"second run": vB}, {"first run": vA})
+        if i in fresh_occ:
+            ctx.corr("prog-fresh")
+            fr = fresh_occ[i]
+            if isinstance(fr, str) or _verdict(fr) != vA:
+                conforms = False
+                ctx.disagree("prog-fresh", case, {"in this process": vA}, {"alone in a fresh process": fr if isinstance(fr, str) else _verdict(fr)})
+        if i % 499 == 0:
+            ctx.sample({"program": case["program"], "occurrence": expr, "cpython": reals, "pyanalyze": vA[0],
+                        "model": model[i] if model else None})
+        # property: every occurrence, whatever came before it
+        raises = any(r.startswith("raises") for r in reals)
+        reports = bool(vA[0]) or vA[1]
+        nonlint = vA[1] or any(k not in LINT_PCT for k in vA[0])
+        if raises and not reports:
+            ctx.candidate(_minimal(case, vA), "CPython raises (%s) but pyanalyze reports nothing on this occurrence" % ",".join(reals),
+                          cls=pick(dset, MISS_CLASSES), conforms=conforms, stream="prog")
+        if not raises:
+            if nonlint:
+                ctx.candidate(_minimal(case, vA), "CPython formats successfully but pyanalyze reports %s%s on this occurrence (use #%d of "
+                              "this template in the process)" % (vA[0], " and crashes" if vA[1] else "", len(hist)),
+                              cls=pick(dset, FP_CLASSES), conforms=conforms, stream="prog")
+            elif vA[2] != reals[0][3:]:
+                ctx.candidate(_minimal(case, vA), "result is %s but the inferred type is %s" % (reals[0][3:], vA[2]),
+                              cls=None, conforms=conforms, stream="prog")
+
+
+_MINIMIZED = [0]
+
+
+def _minimal(case, verdict):
+    """Make the replay self-contained: the failing occurrence preceded by the earlier uses of the same template in
+    this process. For the first few candidates try, in fresh processes, whether the occurrence alone / the
+    same-template history reproduces the verdict and keep the shortest history that does."""
+    if _MINIMIZED[0] >= 4 or len(case["occs"]) == 1:
+        return case
+    _MINIMIZED[0] += 1
+    occs = [occ_from_json(o) for o in case["occs"]]
+    trials = [[occs[-1]]] + [[h, occs[-1]] for h in occs[:-1][-6:]] + [occs]
+    res = fresh_verdicts([[tr] for tr in trials])
+    for tr, r in zip(trials, res):
+        if not isinstance(r, str) and _verdict(r[0][-1]) == verdict:
+            return dict(case, occs=[occ_json(o) for o in tr], reproduced_in_fresh_process=True)
+    return dict(case, reproduced_in_fresh_process=False)
+
+
 # ---------------------------------------------------------------- case lists
 def corpus_cases():
     path = os.path.join(lean.HERE, "corpus", "C17.jsonl")
@@ -708,8 +1156,21 @@ def corpus_cases():
             l = l.strip()
             if l:
                 d = json.loads(l)
+                if d["k"] == "prog":
+                    continue
                 (pct if d["k"] == "pct" else fmt).append(case_from_json(d))
     return pct, fmt
+
+
+def corpus_programs():
+    path = os.path.join(lean.HERE, "corpus", "C17.jsonl")
+    out = []
+    if os.path.exists(path):
+        for l in open(path):
+            l = l.strip()
+            if l and json.loads(l)["k"] == "prog":
+                out.append(json.loads(l)["occs"])
+    return out
 
 
 def case_from_json(d):
@@ -784,7 +1245,21 @@ def gen(ctx):
     return pct, pct_e2e, fmt, fmt_e2e, strings
 
 
+def gen_programs(ctx):
+    progs = [[occ_from_json(o) for o in pr] for pr in corpus_programs()]
+    ex = exhaustive_programs(ctx.big())
+    ctx.extra["prog_exhaustive"] = ("%d programs: '%%(a)s' / '%%(a)d %%(b)s' with every ordered pair%s of dicts over the keys a,b,c; "
+                                    "'%%d %%s' with every ordered pair of tuples of length 0..3 / a scalar; unions of two" % (
+                                        len(ex), " and triple" if ctx.big() else " (triples over 5 dicts for '%(a)s')"))
+    progs += ex
+    for _ in range(ctx.n(450, 6000)):
+        progs.append(rand_program(ctx.rng))
+    return progs
+
+
 def run(ctx):
+    # programs first: the process has no format-checking history yet
+    eval_prog(ctx, gen_programs(ctx), n_fresh_occ=ctx.n(24, 120), n_fresh_prog=ctx.n(6, 24))
     pct, pct_e2e, fmt, fmt_e2e, strings = gen(ctx)
     eval_regex(ctx, strings)
     eval_pct(ctx, pct, pct_e2e)
@@ -792,6 +1267,7 @@ def run(ctx):
 
 
 def run_impl_only(ctx):
+    eval_prog(ctx, gen_programs(ctx), with_model=False, n_fresh_occ=ctx.n(24, 120), n_fresh_prog=ctx.n(6, 24))
     pct, pct_e2e, fmt, fmt_e2e, strings = gen(ctx)
     eval_pct(ctx, pct, pct_e2e, with_model=False)
     eval_fmt(ctx, fmt, fmt_e2e, with_model=False)
@@ -802,7 +1278,9 @@ def replay(ctx, data):
     if not case:
         print("replay file carries no input case")
         return 1
-    if case["k"] == "regex":
+    if case["k"] == "prog":
+        eval_prog(ctx, [[occ_from_json(o) for o in case["occs"]]], n_fresh_occ=1)
+    elif case["k"] == "regex":
         eval_regex(ctx, [case["t"]])
     elif case["k"] == "pct":
         eval_pct(ctx, [case_from_json(case)], {0})
